@@ -26,6 +26,9 @@ class OutOfDomain(Exception):
     pass
 
 
+MARGIN = 1e-6   # distance kept from kinks / poles / ties; C04 widens it so that finite-difference stencils do not cross a kink
+
+
 class IllTyped(Exception):
     pass
 
@@ -497,21 +500,21 @@ def pw(name, kinds, f_build, f_ref, outkind=None, **kw):
 
 def _pos(v):
     if numpy.iscomplexobj(v):
-        if (abs(v) < 1e-6).any() or ((v.real < 0) & (abs(v.imag) < 1e-6)).any():
+        if (abs(v) < MARGIN).any() or ((v.real < 0) & (abs(v.imag) < MARGIN)).any():
             raise OutOfDomain
-    elif (v <= 1e-6).any():
+    elif (v <= MARGIN).any():
         raise OutOfDomain
     return v
 
 
 def _nz(v):
-    if (abs(v) < 1e-6).any():
+    if (abs(v) < MARGIN).any():
         raise OutOfDomain
     return v
 
 
 def _nokink(v):
-    if not numpy.iscomplexobj(v) and v.dtype.kind == 'f' and (abs(v) < 1e-6).any():
+    if not numpy.iscomplexobj(v) and v.dtype.kind == 'f' and (abs(v) < MARGIN).any():
         raise OutOfDomain
     return v
 
@@ -750,27 +753,27 @@ def binop(name, kinds, f_build, f_ref, outkind=None, **kw):
 
 
 def _notie(v, w):
-    if (abs(v - w) < 1e-6).any():
+    if (abs(v - w) < MARGIN).any():
         raise OutOfDomain
     return v, w
 
 
 def _ref_mod(v, w):
-    if (w == 0).any() if w.dtype.kind == 'i' else (abs(w) < 1e-6).any():
+    if (w == 0).any() if w.dtype.kind == 'i' else (abs(w) < MARGIN).any():
         raise OutOfDomain
     if v.dtype.kind == 'f':
         q = v / w
-        if (abs(q - numpy.round(q)) < 1e-6).any():
+        if (abs(q - numpy.round(q)) < MARGIN).any():
             raise OutOfDomain
     return numpy.mod(v, w)
 
 
 def _ref_floordiv(v, w):
-    if (w == 0).any() if w.dtype.kind == 'i' else (abs(w) < 1e-6).any():
+    if (w == 0).any() if w.dtype.kind == 'i' else (abs(w) < MARGIN).any():
         raise OutOfDomain
     if v.dtype.kind == 'f':
         q = v / w
-        if (abs(q - numpy.round(q)) < 1e-6).any():
+        if (abs(q - numpy.round(q)) < MARGIN).any():
             raise OutOfDomain
     return numpy.floor_divide(v, w)
 
@@ -804,7 +807,7 @@ binop('arctan2', 'f', lambda ev, x, y: ev.arctan2(x, y), lambda v, w: numpy.arct
 
 
 def _nokink_pair(v, w):
-    if ((abs(v) < 1e-6) & (w < 1e-6)).any():
+    if ((abs(v) < MARGIN) & (w < MARGIN)).any():
         raise OutOfDomain
     return w
 
@@ -1368,8 +1371,12 @@ def float_value(name, shape, vset):
     elif vset == 2:  # large / small mix
         sc = numpy.array([(.25, 1., 2.)[(k + off) % 3] for k in range(n)]).reshape(shape)
         v = v * sc
-    if len(shape) >= 2 and shape[-1] == shape[-2]:
-        v = v + 4. * numpy.eye(shape[-1])
+    # every pair of equal-length axes gets a dominant diagonal, so that inverses over any axis pair are well conditioned
+    for i in range(len(shape)):
+        for j in range(i + 1, len(shape)):
+            if shape[i] == shape[j] and shape[i] > 1:
+                e = numpy.eye(shape[i]).reshape([shape[i] if k in (i, j) else 1 for k in range(len(shape))])
+                v = v + 4. * e
     return v
 
 
